@@ -376,9 +376,10 @@ const (
 	opResolve
 	opGet
 	opLinks
+	opForeign // the manifest file is (re)written behind the cache's back, as the legacy store and users do
 )
 
-var blobOpNames = [...]string{"Put", "Import", "Chunked", "Link", "Unlink", "Resolve", "Get", "Links"}
+var blobOpNames = [...]string{"Put", "Import", "Chunked", "Link", "Unlink", "Resolve", "Get", "Links", "ForeignManifest"}
 
 type chunkPlan struct {
 	start, end int64 // inclusive
@@ -561,13 +562,13 @@ func (w *blobWorld) drawPlan() {
 	pick := func(xs []int) int { return xs[D("pick", len(xs))] }
 	drawOp := func(ds, ns []int) blobOp {
 		// weights: Put 5, Import 2, Chunked 3, Link 4, Unlink 1, Resolve 3, Get 2, Links 1
-		table := []int{opPut, opPut, opPut, opPut, opPut, opImport, opImport, opLink, opLink, opLink, opLink, opUnlink, opResolve, opResolve, opResolve, opGet, opGet, opLinks}
+		table := []int{opPut, opPut, opPut, opPut, opPut, opImport, opImport, opLink, opLink, opLink, opLink, opUnlink, opResolve, opResolve, opResolve, opGet, opGet, opLinks, opForeign}
 		if chunked {
 			table = append(table, opChunked, opChunked, opChunked)
 		}
 		op := blobOp{kind: table[D("op", len(table))]}
-		needD := op.kind == opPut || op.kind == opImport || op.kind == opChunked || op.kind == opLink
-		needN := op.kind == opLink || op.kind == opUnlink || op.kind == opResolve
+		needD := op.kind == opPut || op.kind == opImport || op.kind == opChunked || op.kind == opLink || op.kind == opForeign
+		needN := op.kind == opLink || op.kind == opUnlink || op.kind == opResolve || op.kind == opForeign
 		if (needD && len(ds) == 0) || (needN && len(ns) == 0) {
 			// this writer owns nothing suitable: read-only operation on anything
 			op.kind = opGet
@@ -710,6 +711,8 @@ func (w *blobWorld) opString(op blobOp) string {
 		return fmt.Sprintf("Chunked(d%d,[%s],retry=%v)", op.dig, strings.Join(cs, " "), op.retry)
 	case opLink:
 		return fmt.Sprintf("Link(%s,d%d)", w.names[op.name].variants[op.variant], op.dig)
+	case opForeign:
+		return fmt.Sprintf("ForeignManifest(%s,d%d)", w.names[op.name].variants[op.variant], op.dig)
 	case opUnlink, opResolve:
 		return fmt.Sprintf("%s(%s)", blobOpNames[op.kind], w.names[op.name].variants[op.variant])
 	case opGet:
@@ -1071,6 +1074,38 @@ func (w *blobWorld) doLink(who string, op blobOp) {
 	})
 }
 
+// doForeign rewrites the manifest file of a name without going through the
+// cache (atomically: temporary file + rename), with the bytes of one of the
+// case's digests, whether or not that blob is in the cache. This is what the
+// legacy store and a user editing a manifest do; Resolve documents that it
+// re-hashes the file and re-stores it as a blob for exactly this case.
+func (w *blobWorld) doForeign(who string, op blobOp) {
+	m := w.names[op.name]
+	d := w.digests[op.dig]
+	name := m.variants[op.variant]
+	path, err := w.c.manifestPath(name)
+	if err != nil || d.n == 0 {
+		return // nobody writes an empty manifest
+	}
+	tk := m.beginMut(d.d.String())
+	tmp := filepath.Join(w.tmp, "foreign-manifest")
+	if err := os.MkdirAll(filepath.Dir(path), 0o777); err != nil {
+		panic(err)
+	}
+	if err := os.WriteFile(tmp, d.data, 0o644); err != nil {
+		panic(err)
+	}
+	if err := os.Rename(tmp, path); err != nil {
+		panic(err)
+	}
+	w.ctl.Ops++ // the disk changed
+	m.endMut(tk, d.d.String(), true)
+	m.lastMut = "foreign"
+	m.past[d.d.String()] = true
+	m.note("%s ForeignManifest(%s,d%d)", who, name, d.idx)
+	verifsim.Probe("foreign_manifest")
+}
+
 func (w *blobWorld) doUnlink(who string, op blobOp) {
 	m := w.names[op.name]
 	name := m.variants[op.variant]
@@ -1209,6 +1244,8 @@ func (w *blobWorld) doOp(who string, op blobOp) {
 		}
 	case opLinks:
 		w.doLinks(who)
+	case opForeign:
+		w.doForeign(who, op)
 	}
 }
 
